@@ -253,6 +253,32 @@ let () =
            printf_m "putinfo %s existed=%s changed=%d split=%s ok=1" (status_s po.po_status) (b2s existed) changed (b2s split)
          | RStatus stt -> printf_m "putinfo %s existed=0 changed=0 split=0 ok=1" (status_s stt)
          | _ -> print_endline "putinfo STUCK")
+      | "iscan" :: s :: l :: le :: r :: re :: rtl :: _ ->
+        let sname = bytes_of_hex s in
+        let (lk, ln) = key_tok l and (rk, rn) = key_tok r in
+        let a = { ia_l = lk; ia_le = ep_of le; ia_r = rk; ia_re = ep_of re; ia_rtl = (rtl = "1"); ia_lnull = ln; ia_rnull = rn } in
+        let sa = { sa_l = lk; sa_le = ep_of le; sa_r = rk; sa_re = ep_of re; sa_max = O; sa_rtl = false; sa_lnull = ln; sa_rnull = rn } in
+        (* the specification: the interval's entries, descending for right-to-left *)
+        (match spec_exec !sp (OScan (sname, sa)) with
+         | (_, AScan (stt, ts)) ->
+           let ts = if rtl = "1" then List.rev ts else ts in
+           Stdlib.print_endline (Printf.sprintf "S iscan %s n=%d t=[%s ]" (status_s stt) (List.length ts)
+                                   (String.concat "" (List.map (fun (k, v) -> " " ^ hex_of_bytes k ^ ":" ^ aval_s v ()) ts)))
+         | (_, AStatus stt) -> Stdlib.print_endline (Printf.sprintf "S iscan %s n=0 t=[ ]" (status_s stt))
+         | _ -> ());
+        (match find_storage !st sname with
+         | Some (Some sid) ->
+           (match trees_get !st.sy_trees sid with
+            | Some tr ->
+              (match iscan_all tr a with
+               | Some ((stt, kv), cbs) ->
+                 printf_m "iscan %s n=%d t=[%s ] end=%s cb=[%s ]" (status_s stt) (List.length kv)
+                   (String.concat "" (List.map (fun (k, v) -> " " ^ hex_of_bytes k ^ ":" ^ value_s v) kv))
+                   (if stt = St_OK then "OK_SCAN_END" else status_s stt)
+                   (String.concat "" (List.map (fun (id, ver) -> " " ^ id_s id ^ ":" ^ hex_of_n ver) cbs))
+               | None -> print_endline "iscan STUCK")
+            | None -> print_endline "iscan STUCK")
+         | _ -> print_endline "iscan WARN_STORAGE_NOT_EXIST n=0 t=[ ] end=WARN_STORAGE_NOT_EXIST cb=[ ]")
       | "dump" :: s :: _ ->
         (match find_storage !st (bytes_of_hex s) with
          | Some (Some sid) ->
